@@ -5,6 +5,8 @@ pub mod c07;
 pub mod c08;
 pub mod c09;
 pub mod c11;
+pub mod c16;
+pub mod c17;
 pub mod c19;
 pub mod c20;
 pub mod util;
@@ -23,6 +25,8 @@ pub fn dispatch(id: &str, tier: Tier, seed: u64) -> Option<i32> {
         "C12" => c09::run(c09::Mode::C12, tier, seed),
         "C11" => c11::run(tier, seed),
         "C19" => c19::run(tier, seed),
+        "C16" => c16::run(tier, seed),
+        "C17" => c17::run(tier, seed),
         "C20" => c20::run(tier, seed),
         _ => return None,
     })
@@ -33,6 +37,7 @@ pub fn replay_kind(kind: &str, j: &serde_json::Value) -> Option<Vec<String>> {
     match kind {
         "parse" => Some(c09::replay_parse(j)),
         "bind" => Some(c11::replay_bind(j)),
+        "dig" => Some(c16::replay_dig(j)),
         "layout" => Some(c20::replay_layout(j)),
         _ => None,
     }
